@@ -29,7 +29,7 @@ REQUIRED = {"import.dictionaries_compared": 50, "import.variables_compared": 200
 
 def plan(tier, seed):
     n = 8
-    return [{"count": 20 if tier == "quick" else 600, "cs": seed * 100 + i} for i in range(n)]
+    return [{"count": 20 if tier == "quick" else 2000, "cs": seed * 100 + i} for i in range(n)]
 
 
 def run(ctx, desc):
